@@ -111,6 +111,13 @@ Proof.
   intros w' Hq. apply wp_frame; [exact Hf | |]; intros; apply Hq; assumption.
 Qed.
 
+Lemma frame_on_unwind {A} (cleanup : M unit) (c : M A) :
+  frame cleanup -> frame c -> frame (on_unwind cleanup c).
+Proof.
+  intros Hf Hc w. apply wp_on_unwind_frame; [exact Hf|].
+  eapply wp_mono; [apply Hc | auto |]; cbn beta. intros w' H w'' H2. congruence.
+Qed.
+
 (* ---------- scanning ---------- *)
 Lemma scan_loop_spec (test : K * V -> M bool) :
   (forall p, frame (test p)) ->
